@@ -158,13 +158,29 @@ class BfsResult:
         self.samples = []
         self.levels = []
         self.capped = False
+        self.merges = 0
+        self.audited = 0
+
+
+AUDIT_EVERY = int(os.environ.get("VERIF_AUDIT_EVERY", "0") or 0)
+AUDIT_STATS = {"bfs_runs": 0, "merged_transitions": 0, "merge_audits": 0}
 
 
 def bfs(factory, depth, ctx=None, workers=None, fork=True, max_states=None, observe=False,
-        time_budget=None, label=""):
-    """Level-synchronous BFS to `depth` with fingerprint de-duplication."""
+        time_budget=None, label="", audit_every=None, audit_max=400):
+    """Level-synchronous BFS to `depth` with fingerprint de-duplication.
+
+    Merge audit: every `audit_every`-th time a state is merged into an already known fingerprint, both histories
+    are expanded one more level and must produce the same children (fingerprints and new violations); a mismatch
+    means the fingerprint omits a field that matters and is a harness error, never a violation.
+    """
     workers = workers or NPROC
+    if audit_every is None:
+        audit_every = AUDIT_EVERY or (7 if os.environ.get("VERIF_TIER_HINT") == "thorough" else 25)
     res = BfsResult()
+    rep = {}            # seen key -> representative history
+    audits = []
+    merges = 0
     opts = {"fork": fork, "observe": observe}
     t0 = time.time()
     # initial state (computed in a worker so the master never holds a live system)
@@ -212,7 +228,13 @@ def bfs(factory, depth, ctx=None, workers=None, fork=True, max_states=None, obse
                     if obs is not None and len(res.samples) < 5 and level >= min(2, depth - 1):
                         res.samples.append({"history": h2, "observed": obs})
                     key = (history[0][1], fp) if multi else fp
+                    if key in seen and not viol[pre:]:
+                        merges += 1
+                        if audit_every and merges % audit_every == 0 and len(audits) < audit_max and \
+                                key in rep and rep[key] != h2 and level + 1 < depth:
+                            audits.append((rep[key], h2, fp))
                     if key not in seen:
+                        rep[key] = h2
                         seen[key] = level + 1
                         res.states += 1
                         res.max_depth = level + 1
@@ -228,6 +250,33 @@ def bfs(factory, depth, ctx=None, workers=None, fork=True, max_states=None, obse
                 break
         else:
             res.frontier_emptied = not frontier
+        # ---- merge audit ----
+        res.merges = merges
+        res.audited = 0
+        AUDIT_STATS["bfs_runs"] += 1
+        AUDIT_STATS["merged_transitions"] += merges
+        AUDIT_STATS["merge_audits"] += len(audits)
+        if audits:
+            jobs = []
+            for a, b, fp in audits:
+                jobs.append((a, fp))
+                jobs.append((b, fp))
+            out = pool.map(_expand, jobs, max(1, len(jobs) // (workers * 4)))
+            for i in range(0, len(out), 2):
+                ra, rb = out[i], out[i + 1]
+                if ra[0] != "OK" or rb[0] != "OK":
+                    from mc.runner import HarnessError
+                    raise HarnessError("merge audit: replay failed for %r / %r: %r %r" % (jobs[i][0], jobs[i + 1][0],
+                                                                                       ra[:3], rb[:3]))
+                ca = [(repr(c[0]), c[1], tuple(sorted(v[0] for v in c[2][ra[2]:]))) for c in ra[3]]
+                cb = [(repr(c[0]), c[1], tuple(sorted(v[0] for v in c[2][rb[2]:]))) for c in rb[3]]
+                res.audited += 1
+                if ca != cb:
+                    diff = [(x, y) for x, y in zip(ca, cb) if x != y][:2] or [(len(ca), len(cb))]
+                    from mc.runner import HarnessError
+                    raise HarnessError("merge audit: histories %r and %r have the same fingerprint but different "
+                                       "successors %r -- the fingerprint omits state that matters" %
+                                       (jobs[i][0], jobs[i + 1][0], diff))
     return res
 
 
